@@ -349,3 +349,78 @@ def contracts():
                    'and p[0] == calls[0][2]'],
           serves=('C03', 'C02'), native=False)
     return cs
+
+
+# ============ the ply precedence rows built from the operator table =========
+
+PREC_TABLES = {
+    # name: [(symbol, unary_prec, binary_prec, token)]; precedence numbers
+    # as _build_operator_table assigns them (group index, sign = row)
+    'default-like': [('.', 0, 1, 'A'), ('-', 2, 4, 'B'), ('*', 0, 3, 'C'),
+                     ('not', 5, 0, 'D'), ('->', 0, -6, 'E')],
+    # one group holding a prefix operator AND right-associative binaries:
+    # the prefix operator takes the tightest operand the group allows, so
+    # the right-associative row binds tighter than the prefix row
+    'prefix+right-group': [('~', 1, 0, 'T'), ('**', 0, -1, 'P'),
+                           ('+', 0, 2, 'Q')],
+    'suffix-group': [('!', -1, 0, 'S'), ('+', 0, 2, 'Q'),
+                     ('=>', 0, -3, 'R')],
+    'indexer-map': [('[]', 0, 1, 'INDEXER'), ('{}', 0, 1, 'MAP'),
+                    ('+', 0, 2, 'Q')],
+}
+
+
+def _expected_rows(table):
+    """Reference: rows from the LOOSEST level to the tightest; inside a level
+    the left-associative / prefix row, then the right-associative / suffix
+    row; the argument separator last."""
+    levels = {}
+    for sym, up, bp, tok in table:
+        if up:
+            levels.setdefault((abs(up), 'l' if up > 0 else 'r'), []).append(
+                'UNARY_' + tok if bp else tok)
+        if bp:
+            row = levels.setdefault((abs(bp), 'l' if bp > 0 else 'r'), [])
+            if tok == 'INDEXER':
+                row.extend(('LIST', 'INDEXER'))
+            else:
+                row.append(tok)
+    out = []
+    for lvl in sorted({k[0] for k in levels}, reverse=True):
+        for row in ('l', 'r'):
+            if (lvl, row) in levels:
+                out.append((('left',) if row == 'l' else ('right',)) +
+                           tuple(levels[(lvl, row)]))
+    out.append(('left', ','))
+    return tuple(out)
+
+
+def setup_precedence(world):
+    setup(world)
+    world.opaque_attr_default = True
+    import types
+    from vlib.pyvc.interp import Model
+    # binding a generated production to the parser: the function itself
+    world.lib[('types', 'MethodType')] = Model(
+        'types.MethodType', lambda f, o: f)
+    world.setattr_models.append(
+        lambda o, name, v, it, node: None if type(o).__name__ == 'FuncRef'
+        and name == '__doc__' else NotImplemented)
+
+
+def precedence_contracts():
+    cs = []
+    for name, table in PREC_TABLES.items():
+        ops = obj('yaql.language.factory.YaqlOperators',
+                  operators={sym: (up, bp, tok, None)
+                             for sym, up, bp, tok in table},
+                  name_value_op=None)
+        parser = obj('yaql.language.parser.Parser', _aliases={},
+                     precedence=None)
+        cs.append(Contract(
+            P + 'Parser._generate_operator_funcs',
+            name='parser.precedence-rows/' + name,
+            params=dict(self=parser, yaql_operators=ops, engine=TVal),
+            ensures=['self.precedence == %r' % (_expected_rows(table),)],
+            serves=('C02',), native=False))
+    return cs
